@@ -743,6 +743,18 @@ def install(R):
         return cnt
     R.fns["pyx:mlinsights/mltree/_tree_digitize.pyx::tree_add_node"] = tree_add_node
 
+    def m_add_node(E, recv, args, kwargs, node):
+        """Tree._add_node itself (scikit-learn): the root is added with parent = _TREE_UNDEFINED = -2"""
+        parent = args[0]
+        if isinstance(parent, int) and parent == -2:
+            parent = -1
+        elif is_sym(parent):
+            E.safety("add-node-parent", z(parent) >= 0, node, "ValueError")
+        elif isinstance(parent, int) and parent < 0:
+            raise Unsupported("Tree._add_node with parent %r" % (parent,))
+        return tree_add_node(E, recv, parent, *args[1:], **kwargs)
+    R.methods[("Tree", "_add_node")] = m_add_node
+
     def tree_attr(E, base, attr, node):
         if isinstance(base, Obj) and base.tag == "Tree":
             if attr == "value":
